@@ -1291,6 +1291,8 @@ def gen_C16(rng, tier, changed):
         for es_dst in ES:
             for size in ([0, 1, 6, 64] + ([IMAX // max(1, es_dst) + 1, UMAX, 2**63] if es_src == 0 else [])):
                 want = f'Some([1,{size},{size}])' if es_dst * size <= IMAX else 'Err(CapacityOverflow)'
+                if want.startswith('Some') and size > 2048:
+                    continue    # a successful huge map would loop over every (zero-sized) element
                 for which in (0, 1, 6, 7):
                     cases.append(KCase(f'C16-k{kk}', 'mapfam', [which, es_src, es_dst, size], meta=dict(want=want)))
                     kk += 1
